@@ -19,8 +19,8 @@ EXTRACT = ["C12"]
 BINS = ["c12"]
 NEEDS_CICADA = True
 ALLOWED_AXIOMS = []
-PINNED = ["C12_brace", "C12_order", "C12_range", "C12_home", "C12_glob", "C12_full", "C12_refuted",
-          "C12_refuted_affixes", "C12_refuted_overflow", "C12_refuted_single_alternative"]
+PINNED = ["C12_brace", "C12_brace_any_group", "C12_order", "C12_range", "C12_range_total", "C12_home", "C12_glob",
+          "C12_full", "C12_refuted", "C12_refuted_affixes"]
 TRUSTED = [
     "Coq 8.16.1 kernel (coqc; coqchk in thorough); vm_compute only in concrete witnesses / non-vacuity examples",
     "hand transcription of need_expand_brace / brace_getitem / brace_getgroup / expand_brace / expand_brace_range / "
@@ -32,9 +32,10 @@ TRUSTED = [
     "extraction: ExtrOcamlBasic only; OCaml 4.13.1; ocaml/c12/drv.ml; harness/src/expand_ops.rs; drive/c12.py",
 ]
 ASSUMES = [
-    "C12_brace: well-formed terms (plain characters are not { } , backslash; every group has >= 2 alternatives)",
-    "C12_range: operands are i32 and the end operand is at least one step inside the i32 bounds; stated for "
-    "range_list (the loop), the token-level parsing of the operands is covered by correspondence only",
+    "C12_brace / C12_brace_any_group: well-formed terms (plain characters are not { } , backslash); a group with a "
+    "single alternative keeps its braces",
+    "C12_range: all i32 operands; stated for range_list (the loop), the token-level parsing of the operands is "
+    "covered by correspondence only",
     "C12_order: the pass does not take its early return (range operand that does not parse, glob pattern error)",
 ]
 
@@ -50,7 +51,8 @@ def gen_term(rng, depth, top=True):
     ngroups = 0
     for _ in range(rng.randint(0, 4 if top else 2)):
         if depth > 0 and ngroups < 3 and rng.random() < 0.4:
-            alts = [gen_term(rng, depth - 1, False) if rng.random() < 0.85 else [] for _ in range(rng.randint(2, 4))]
+            alts = [gen_term(rng, depth - 1, False) if rng.random() < 0.85 else []
+                    for _ in range(1 if rng.random() < 0.12 else rng.randint(2, 4))]
             items.append(alts)
             ngroups += 1
         else:
@@ -69,6 +71,8 @@ def den(t):
             out = [o + x for o in out]
         else:
             alts = [w for a in x for w in den(a)]
+            if len(x) == 1:
+                alts = ["{" + w + "}" for w in alts]   # a group with one alternative is not an expansion
             out = [o + w for o in out for w in alts]
     return out
 
@@ -79,6 +83,10 @@ def count_den(t):
         if not isinstance(x, str):
             n *= sum(count_den(a) for a in x)
     return n
+
+
+def all_multi(t):
+    return all(isinstance(x, str) or (len(x) >= 2 and all(all_multi(a) for a in x)) for x in t)
 
 
 def has_group(t):
@@ -224,7 +232,7 @@ def run(ctx, res):
         mterm, mbgi, ibgi = mb[2 * k], mb[2 * k + 1], ib[2 * k + 1]
         want_term = '"%s" %s wf=T' % (C.enc(render(t)), qlist(exp))
         want_bgi = "(%s,%s)" % (qlist(exp), '""')
-        if mterm != want_term:
+        if all_multi(t) and mterm != want_term:
             violate(kind="oracle-self-check", input=render(t), model=mterm, python=want_term, failing_input=False,
                     note="extracted den_term / wf_term and the driver's product disagree")
         if ibgi != want_bgi:
@@ -376,7 +384,7 @@ def run(ctx, res):
                 emeta.append((d, None, toks, "dx"))
         pe = C.write_cases("c12_e.txt", le)
         me = C.run_model(ctx.model["C12"], pe)
-        ie = X.run_impl_filtered(ctx.bins["c12"], pe, len(le))
+        ie = C.run_impl(ctx.bins["c12"], pe, len(le), shards=1)
         res.count("L1e_glob_L1f_do_expansion", len(le))
         for (d, p, toks, tbl), a, b in zip(emeta, me, ie):
             if tbl == "dx":
@@ -412,8 +420,9 @@ def run(ctx, res):
               ("~/q", [d0 + "/q"], None), ("'{a,b}' \"*.txt\" '~'", ["{a,b}", "*.txt", "~"], None),
               ("k {a,b} *.txt {1..2} m", ["k", "a", "b", "a.txt", "b.txt", "c d.txt", "1", "2", "m"], None),
               ("a{1..3}b", ["a1b", "a2b", "a3b"], "range_affixes_dropped"),
-              ("{a}{b,c}", ["{a}b", "{a}c"], "single_alternative_group"),
-              ("{2147483646..2147483647}", ["2147483646", "2147483647"], "range_i32_overflow")]
+              ("{a}{b,c}", ["{a}b", "{a}c"], None), ("x{a}y", ["x{a}y"], None),
+              ("{2147483646..2147483647}", ["2147483646", "2147483647"], None),
+              ("{-2147483647..-2147483648}", ["-2147483647", "-2147483648"], None)]
 
         def one(job):
             line = "%s @o %s" % (hp, job[0])
